@@ -22,7 +22,7 @@ class RecorderProp(Prop):
                    'no operation nested in another operation of the same recorder (known finding K6)',
                    'values of the serializer\'s faithful domain; no object shared between two keys of one recording (K7)']
     OPTS = dict(ALL_OPTS)
-    N = {'quick': 300, 'thorough': 6000}
+    N = {'quick': 2000, 'thorough': 20000}
 
     def gen_one(self, rng, tier):
         return rg.gen_history(rng, self.OPTS)
